@@ -182,7 +182,16 @@ pub fn run(ctx: &mut Ctx) {
         ctx.begin(i);
         let mut rng = ctx.rng("c10", i);
         let codec = R::CODECS[(i % 4) as usize];
-        let l = dup_logical(&mut rng, i, codec);
+        let mut l = dup_logical(&mut rng, i, codec);
+        if i % 16 == 3 || i % 16 == 10 {
+            // textual contents (hex of the original bytes): the adds go through String / &str / Vec<u8>
+            for c in l.tiles.values_mut() {
+                let cut = c.len().min(40);
+                *c = Rc::new(crate::obs::hex(&c[..cut]).into_bytes());
+            }
+            l.class.push_str("/text");
+            ctx.count("archives_with_textual_contents");
+        }
         let mat: Value = json!({"archive": l.describe(), "pattern": i % 6, "history": i % 4});
         let nontrivial = l.has_duplicates();
         // build along one of four histories; the store report is checked at every quiescent point
@@ -210,17 +219,27 @@ pub fn run(ctx: &mut Ctx) {
                 0 => add_all(&mut arch, &mut model, &ids, every)?,
                 1 => {
                     // half, save+reopen (tiles become reader-backed), other half (duplicates of backed contents)
-                    add_all(&mut arch, &mut model, &ids[..split], every)?;
+                    // which tiles go first: the lower half, the UPPER half (the later adds then sit in front of
+                    // reader-backed runs), or alternating blocks of three ids (adds in front of, behind and between them)
+                    let (first, second): (Vec<u64>, Vec<u64>) = match (i / 4) % 3 {
+                        0 => (ids[..split].to_vec(), ids[split..].to_vec()),
+                        1 => (ids[split..].to_vec(), ids[..split].to_vec()),
+                        _ => {
+                            let pick = |par: usize| -> Vec<u64> { ids.iter().enumerate().filter(|(k, _)| (k / 3) % 2 == par).map(|(_, id)| *id).collect() };
+                            (pick(0), pick(1))
+                        }
+                    };
+                    add_all(&mut arch, &mut model, &first, every)?;
                     let bytes = arch.save().map_err(|e| e.to_string())?;
                     model.reopened();
                     arch = if i % 8 < 4 { Arch::open_sync(bytes) } else { Arch::open_async(bytes) }.map_err(|e| e.to_string())?;
                     arch.apply_settings(&l);
                     if i % 16 >= 8 {
-                        for id in ids[..split].iter().step_by(3).take(100) {
+                        for id in first.iter().step_by(3).take(100) {
                             let _ = arch.get(*id).map_err(|e| e.to_string())?;
                         }
                     }
-                    add_all(&mut arch, &mut model, &ids[split..], every)?;
+                    add_all(&mut arch, &mut model, &second, every)?;
                 }
                 2 => {
                     // everything, reopen, then re-add identical bytes for a third of the (now backed) tiles
